@@ -298,6 +298,9 @@ class AbstractC2(Application):
         :return: Returns a bool if the traffic was received correctly (See _handle_c2_payload.)
         :rtype: bool
         """
+        if not super().receive(payload=payload, session_id=session_id, **kwargs):
+            return False
+
         if not isinstance(payload, C2Packet):
             self.sys_log.warning(f"{self.name}: Payload is not an C2Packet")
             self.sys_log.debug(f"{self.name}: {payload}")
